@@ -128,9 +128,9 @@ impl<T: Elem, const M: usize> VModel<T, M> {
     fn of<L: Len>(v: &FlatVec<T, L>) -> Self {
         let n = v.len();
         let cap = v.capacity();
-        assert!(n <= cap && cap <= M, "harness bound: capacity exceeds the model array");
+        assert!(n <= cap && cap <= M, "C11: len > capacity in a validated value (or harness model array too small)");
         let s = v.as_slice();
-        assert!(s.len() == n);
+        assert!(s.len() == n, "C11: as_slice().len() != len()");
         let mut it = [T::default(); M];
         let mut i = 0;
         while i < M {
@@ -252,7 +252,7 @@ fn op_state<T: Elem, L: Len, const A: usize, const D: usize, const N: usize, con
         check_vec::<T, L, A, D, M>(v, &m, raw);
         // the snapshot used by the other harnesses agrees
         let m2 = VModel::<T, M>::of(v);
-        assert!(m2.n == rn && m2.cap == cap);
+        assert!(m2.n == rn && m2.cap == cap, "C11: accessor snapshot differs from the raw decoding");
     }
 }
 
@@ -432,7 +432,7 @@ fn op_write<T: Elem, L: Len, const A: usize, const D: usize, const N: usize, con
         v.as_mut_slice()[i] = x;
     } else {
         let s: &mut [T] = &mut **v; // FlatVec -> GenericVec -> [T]
-        assert!(s.len() == m.n);
+        assert!(s.len() == m.n, "C11: DerefMut slice length != len()");
         s[i] = x;
     }
     kani::cover!(how == 0 && i > 0, "write through IndexMut");
@@ -531,9 +531,9 @@ impl<const M: usize> SModel<M> {
     fn of<L: Len>(v: &FlatString<L>) -> Self {
         let n = v.len();
         let cap = v.capacity();
-        assert!(n <= cap && cap <= M, "harness bound: capacity exceeds the model array");
+        assert!(n <= cap && cap <= M, "C11: len > capacity in a validated value (or harness model array too small)");
         let s = v.as_str().as_bytes();
-        assert!(s.len() == n);
+        assert!(s.len() == n, "C11: as_str().len() != len()");
         let mut by = [0u8; M];
         let mut i = 0;
         while i < M {
@@ -700,7 +700,7 @@ fn s_clear<L: Len, const A: usize, const N: usize, const M: usize>() {
     v.clear();
     m.n = 0;
     check_str::<L, A, M>(v, &m, raw);
-    assert!(v.as_str() == "");
+    assert!(v.as_str() == "", "C11: as_str() after clear is not empty");
 }
 
 fn s_eq<L: Len, const A: usize, const N: usize, const M: usize>() {
@@ -768,7 +768,7 @@ macro_rules! vh {
     };
 }
 
-/// sh!(harness, op, L, ALIGN (= DATA_OFFSET), N (BOUNDED: buffer length <= N), M (>= capacity, >= 8 spare handled by ops), unwind)
+/// sh!(harness, op, L, ALIGN (= DATA_OFFSET), N (BOUNDED: buffer length <= N), M (>= capacity), unwind)
 macro_rules! sh {
     ($name:ident, $op:ident, $L:ty, $A:literal, $N:literal, $M:literal, $U:literal) => {
         #[kani::proof]
@@ -795,3 +795,111 @@ vh!(c11_vec_u8_u16_write, op_write, u8, u16, 2, 2, 10, 8, 12);
 vh!(c11_vec_u8_u16_eq, op_eq, u8, u16, 2, 2, 8, 6, 10);
 vh!(c13_vec_u8_u16_push, op13_push, u8, u16, 2, 2, 10, 8, 12);
 vh!(c13_vec_u8_u16_push_slice, op13_push_slice, u8, u16, 2, 2, 10, 8, 12);
+
+// FlatVec<u16,u8>: ALIGN 2, data at 2 (1 padding byte behind the length), N = 10 -> capacity <= 4
+vh!(c11_vec_u16_u8_state, op_state, u16, u8, 2, 2, 10, 4, 12);
+vh!(c11_vec_u16_u8_push, op_push, u16, u8, 2, 2, 10, 4, 12);
+vh!(c11_vec_u16_u8_pop, op_pop, u16, u8, 2, 2, 10, 4, 12);
+vh!(c11_vec_u16_u8_push_slice, op_push_slice, u16, u8, 2, 2, 10, 4, 12);
+vh!(c11_vec_u16_u8_remove, op_remove, u16, u8, 2, 2, 10, 4, 12);
+vh!(c11_vec_u16_u8_resize, op_resize, u16, u8, 2, 2, 10, 4, 12);
+
+// FlatVec<u32,u8>: ALIGN 4, data at 4 (3 padding bytes behind the length), N = 16 -> capacity <= 3
+vh!(c11_vec_u32_u8_state, op_state, u32, u8, 4, 4, 16, 3, 18);
+vh!(c11_vec_u32_u8_push, op_push, u32, u8, 4, 4, 16, 3, 18);
+vh!(c11_vec_u32_u8_push_slice, op_push_slice, u32, u8, 4, 4, 16, 3, 18);
+vh!(c11_vec_u32_u8_remove, op_remove, u32, u8, 4, 4, 16, 3, 18);
+vh!(c11_vec_u32_u8_truncate, op_truncate, u32, u8, 4, 4, 16, 3, 18);
+
+// FlatVec<[u8;3],u16>: ALIGN 2, data at 2, element size 3 (not a multiple of ALIGN), N = 12 -> capacity <= 3
+vh!(c11_vec_a3_u16_state, op_state, [u8; 3], u16, 2, 2, 12, 3, 14);
+vh!(c11_vec_a3_u16_push, op_push, [u8; 3], u16, 2, 2, 12, 3, 14);
+vh!(c11_vec_a3_u16_pop, op_pop, [u8; 3], u16, 2, 2, 12, 3, 14);
+vh!(c11_vec_a3_u16_swap_remove, op_swap_remove, [u8; 3], u16, 2, 2, 12, 3, 14);
+
+// FlatVec<u8, le::U16> (portable length): ALIGN 1, data at 2, N = 9 -> capacity <= 7
+vh!(c11_vec_u8_le16_state, op_state, u8, le::U16, 1, 2, 9, 7, 11);
+vh!(c11_vec_u8_le16_push, op_push, u8, le::U16, 1, 2, 9, 7, 11);
+vh!(c11_vec_u8_le16_push_slice, op_push_slice, u8, le::U16, 1, 2, 9, 7, 11);
+vh!(c11_vec_u8_le16_extend, op_extend, u8, le::U16, 1, 2, 9, 7, 11);
+vh!(c11_vec_u8_le16_truncate, op_truncate, u8, le::U16, 1, 2, 9, 7, 11);
+
+// FlatVec<u64,u32>: ALIGN 8, data at 8, N = 24 -> capacity <= 2
+vh!(c11_vec_u64_u32_state, op_state, u64, u32, 8, 8, 24, 2, 26);
+vh!(c11_vec_u64_u32_push, op_push, u64, u32, 8, 8, 24, 2, 26);
+vh!(c11_vec_u64_u32_remove, op_remove, u64, u32, 8, 8, 24, 2, 26);
+vh!(c13_vec_u64_u32_push_slice, op13_push_slice, u64, u32, 8, 8, 24, 2, 26);
+
+// FlatString<u8>: ALIGN 1, data at 1, N = 7 -> capacity <= 6 (model array 8)
+sh!(c11_str_u8_state, s_state, u8, 1, 7, 8, 10);
+sh!(c11_str_u8_push, s_push, u8, 1, 7, 8, 10);
+sh!(c11_str_u8_push_str, s_push_str, u8, 1, 7, 8, 10);
+sh!(c11_str_u8_clear, s_clear, u8, 1, 7, 8, 10);
+sh!(c11_str_u8_eq, s_eq, u8, 1, 6, 8, 10);
+sh!(c13_str_u8_push, s13_push, u8, 1, 7, 8, 10);
+
+// FlatString<u16>: ALIGN 2, data at 2, N = 8 -> capacity <= 6
+sh!(c11_str_u16_state, s_state, u16, 2, 8, 8, 10);
+sh!(c11_str_u16_push, s_push, u16, 2, 8, 8, 10);
+sh!(c11_str_u16_push_str, s_push_str, u16, 2, 8, 8, 10);
+sh!(c13_str_u16_push, s13_push, u16, 2, 8, 8, 10);
+
+/// FlatVec<u8,u8> over a 300-byte buffer: 299 element slots > u8::MAX.  BOUNDED: one buffer size (300), only the
+/// length byte symbolic (all 256 values; every one of them is a valid state), data bytes zero.
+/// capacity() is min(slots, L::MAX) = 255; push at len 255 is refused ("length type exhausted"), C13 unchanged.
+#[kani::proof]
+#[kani::unwind(258)]
+fn c11_vec_u8_u8_cap_above_len_max() {
+    let mut buf = [0u8; 300];
+    buf[0] = kani::any();
+    let n0 = buf[0] as usize;
+    let r = FlatVec::<u8, u8>::from_mut_bytes(&mut buf);
+    assert!(r.is_ok(), "C11: a 300-byte FlatVec<u8,u8> buffer is refused");
+    let Ok(v) = r else { return };
+    assert!(v.len() == n0, "C11: len");
+    assert!(v.capacity() == 255, "C11: capacity() != min(slots, L::MAX)");
+    assert!(v.remaining() == 255 - n0, "C11: remaining()");
+    assert!(v.is_full() == (n0 == 255), "C11: is_full");
+    assert!(v.as_bytes().len() == 300, "C11: as_bytes() length");
+    assert!(v.size() == 1 + n0, "C11: size()");
+    let x: u8 = kani::any();
+    let y: u8 = kani::any();
+    let slice: bool = kani::any();
+    let mut n1 = n0;
+    if slice {
+        let r = v.push_slice(&[x, y]);
+        if n0 + 2 <= 255 {
+            kani::cover!(n0 == 253, "push_slice up to the length type's maximum");
+            assert!(r.is_ok(), "C11: push_slice refused although it fits");
+            n1 = n0 + 2;
+            assert!(v.len() == n1 && v.as_slice()[n0] == x && v.as_slice()[n0 + 1] == y, "C11: push_slice result");
+        } else {
+            kani::cover!(n0 == 254, "push_slice refused: one slot left below L::MAX, 45 bytes free");
+            assert!(r.is_err(), "C11: push_slice accepted beyond L::MAX");
+        }
+    } else {
+        let r = v.push(x);
+        if n0 < 255 {
+            kani::cover!(n0 == 254, "push up to the length type's maximum");
+            assert!(r.is_ok(), "C11: push refused although len < capacity");
+            n1 = n0 + 1;
+            assert!(v.len() == n1 && v.as_slice()[n0] == x, "C11: push result");
+        } else {
+            kani::cover!(true, "push refused: length type exhausted");
+            assert!(r == Err(x), "C13: refused push returns a different item");
+        }
+    }
+    // C11 post-state / C13 unchanged state on refusal (n1 == n0)
+    assert!(v.len() == n1, "C13: len changed by a refused operation");
+    assert!(v.capacity() == 255, "C11: capacity changed");
+    assert!(v.remaining() == 255 - n1, "C11: remaining()");
+    assert!(v.size() == 1 + n1, "C13: size() changed by a refused operation");
+    assert!(v.as_slice().len() == n1, "C11: as_slice().len()");
+    if n1 == n0 && n0 > 0 { assert!(v.as_slice()[n0 - 1] == 0, "C13: items changed by a refused operation"); }
+    assert!(FlatVec::<u8, u8>::validate(v.as_bytes()).is_ok(), "C11: as_bytes() does not validate");
+    // later operation behaves as if the refused call had never happened
+    if n1 == n0 && n0 > 0 {
+        assert!(v.pop() == Some(0), "C13: pop after a refused operation");
+        assert!(v.len() == n0 - 1, "C13: len after pop");
+    }
+}
